@@ -124,6 +124,9 @@ class StopMonitor(Monitor):
                 return
             self.stopped = True
             frames = [wire.summarize(f) for f in wire.frames_of_writes([(0, d) for _, d in self.writes_now])]
+            if self.pre['stopped'] and self.writes_now:
+                # the operator's stop is already in force: repeating it sends nothing (the Cease went out with the first one)
+                self.report('write-after-stop', 'manual-stop repeated while stopped made the agent write %s' % (frames,), feats + ['event:STOP'])
             if st == 'ESTABLISHED':
                 if not any(f[0] == 3 and f[1] == 6 for f in frames):
                     self.report('stop-no-cease', 'stop in Established wrote %s, no Cease' % (frames,), feats)
